@@ -467,3 +467,152 @@ Fixpoint xz_mismatches_from (i : nat) (l : list xzcase) : list nat :=
   | c :: t => if Bool.eqb (xz_model_eof c) (z_eof c) then xz_mismatches_from (S i) t else i :: xz_mismatches_from (S i) t
   end.
 Definition xz_mismatches (l : list xzcase) : list nat := xz_mismatches_from 0 l.
+
+(* ================================================================ round 3 ================================================================ *)
+(* ---------------------------------------------------------------- error reporters as readers; several inputs *)
+(* shortInputReporter (raw input) / truncationReporter (decompressors): the error of the wrapped reader is renamed *)
+Definition report_err (f : ferr) : ferr := match f with FUnexpected => FTruncated | x => x end.
+Definition report_opt (e : option ferr) : option ferr := match e with Some f => Some (report_err f) | None => None end.
+Definition report_src (r : reader) : reader :=
+  match r with RSrc d sch f eager => RSrc d sch (report_err f) eager | x => x end.
+
+(* original tree: a plain input is handed over as it is (no reporter around the raw reader) *)
+Definition plain_unreported (s : stream) : rstream := raw s.
+
+(* several inputs read one after the other (ReadSequencesBatchFromFiles with one reader: the inputs in order; --paired-with: both
+   readers are opened, then consumed): the first input which does not end with status 0 decides (log.Fatalf / log.Panicf / os.Exit) *)
+Fixpoint seq_outcomes (l : list outcome) : outcome :=
+  match l with
+  | [] => ExitOk []
+  | ExitOk a :: t => match seq_outcomes t with ExitOk b => ExitOk (a ++ b) | x => x end
+  | x :: _ => x
+  end.
+
+Section Multi.
+  Variable split : list N -> option nat.
+  Variable B ext : N.
+  Variable detect : list N -> bool.
+  Definition multi_command (sn : option N) (l : list stream) : outcome :=
+    seq_outcomes (map (command_gen split B ext detect sn) l).
+End Multi.
+
+(* ---------------------------------------------------------------- correspondence: commands given several inputs *)
+(* m_files: what the probe route decodes from every input, in reading order (c_obs unused); m_obs: verdict of the command *)
+Record mcase := mkm { m_files : list case; m_obs : obs }.
+
+Definition file_outcome (c : case) : outcome :=
+  if negb (c_hdr c) then ExitFatal
+  else command_gen fasta_split (c_B c) (c_ext c) (fun _ => c_recog c) (c_sn c) (mkstream (c_data c) (c_fin c)).
+
+Definition multi_model_obs (m : mcase) : obs :=
+  match seq_outcomes (map file_outcome (m_files m)) with
+  | ExitFatal => OFatal
+  | Diverges => ODiverges
+  | ExitOk chunks =>
+      if list_eqb (sig (concat chunks)) (sig (concat (map c_data (m_files m)))) then OOkAll else OOkPartial
+  end.
+
+Fixpoint multi_mismatches_from (i : nat) (l : list mcase) : list nat :=
+  match l with
+  | [] => []
+  | c :: t => if obs_eqb (multi_model_obs c) (m_obs c) then multi_mismatches_from (S i) t else i :: multi_mismatches_from (S i) t
+  end.
+Definition multi_mismatches (l : list mcase) : list nat := multi_mismatches_from 0 l.
+
+(* ---------------------------------------------------------------- xopen.Buf: which decompressor, from the magic number *)
+Inductive codec := CGz | CZst | CXz | CBz2 | CRaw.
+
+Definition magic (c : codec) : list N :=
+  match c with
+  | CGz => [31; 139] | CZst => [40; 181; 47; 253] | CXz => [253; 55; 122; 88; 90; 0] | CBz2 => [66; 90; 104] | CRaw => []
+  end.
+
+Fixpoint prefixb (m l : list N) : bool :=
+  match m, l with
+  | [], _ => true
+  | x :: m', y :: l' => (x =? y) && prefixb m' l'
+  | _ :: _, [] => false
+  end.
+
+(* CheckBytes(b, magic): None = the error of Peek (the stream is shorter than the magic) *)
+Definition check_orig (m l : list N) : option bool :=
+  if (length l <? length m)%nat then None else Some (prefixb m l).
+(* repaired: a stream shorter than the magic does not begin with it, and that is no error *)
+Definition check_fixed (m l : list N) : option bool := Some (prefixb m l).
+
+(* the if / else-if chain of Buf: IsGzip, IsZst, IsXz, IsBzip2; an error ends the search (plain data) *)
+Definition select (check : list N -> list N -> option bool) (l : list N) : codec :=
+  match check (magic CGz) l with
+  | None => CRaw | Some true => CGz
+  | Some false =>
+    match check (magic CZst) l with
+    | None => CRaw | Some true => CZst
+    | Some false =>
+      match check (magic CXz) l with
+      | None => CRaw | Some true => CXz
+      | Some false =>
+        match check (magic CBz2) l with
+        | None => CRaw | Some true => CBz2
+        | Some false => CRaw
+        end
+      end
+    end
+  end.
+
+Definition codec_eqb (a b : codec) : bool :=
+  match a, b with CGz, CGz | CZst, CZst | CXz, CXz | CBz2, CBz2 | CRaw, CRaw => true | _, _ => false end.
+
+(* correspondence: the first bytes of the input; through xopen.Buf the bytes came out as they went in (plain data) *)
+Record selcase := mks { s_head : list N; s_plain : bool }.
+Fixpoint sel_mismatches_from (i : nat) (l : list selcase) : list nat :=
+  match l with
+  | [] => []
+  | c :: t => if Bool.eqb (codec_eqb (select check_fixed (s_head c)) CRaw) (s_plain c) then sel_mismatches_from (S i) t
+              else i :: sel_mismatches_from (S i) t
+  end.
+Definition sel_mismatches (l : list selcase) : list nat := sel_mismatches_from 0 l.
+
+(* ---------------------------------------------------------------- ExpandListOfFiles: which files a command reads *)
+(* paths are byte strings; the extension filter of a directory search *)
+Definition has_suffix (suf p : list N) : bool := prefixb (rev suf) (rev p).
+Definition SUFFIXES : list (list N) :=
+  [ [102;97;115;116;97]; [102;97;115;116;97;46;103;122]; [102;97;115;116;113]; [102;97;115;116;113;46;103;122];
+    [115;101;113]; [115;101;113;46;103;122]; [103;98]; [103;98;46;103;122]; [100;97;116]; [100;97;116;46;103;122];
+    [101;99;111;112;99;114]; [101;99;111;112;99;114;46;103;122] ].    (* fasta fasta.gz fastq fastq.gz seq seq.gz gb gb.gz dat dat.gz ecopcr ecopcr.gz *)
+Definition accepted (p : list N) : bool := existsb (fun s => has_suffix s p) SUFFIXES.
+
+(* an argument: a regular file, or a directory given by the regular files below it (any depth) in the order filepath.Walk meets them *)
+Inductive arg := AFile (p : list N) | ADir (files : list (list N)).
+
+Fixpoint pmem (p : list N) (l : list (list N)) : bool :=
+  match l with [] => false | q :: t => list_eqb p q || pmem p t end.
+(* orderedset.Add *)
+Definition oadd (acc : list (list N)) (p : list N) : list (list N) := if pmem p acc then acc else acc ++ [p].
+Definition oadd_if (acc : list (list N)) (p : list N) : list (list N) := if accepted p then oadd acc p else acc.
+
+(* chk is the parameter check_ext: false at the call of the command. The check asked for by a directory argument concerns the
+   content of that directory only (the loop works on a copy of the parameter since the repair "ExpandListOfFiles keeps the files
+   named after a directory argument"; before it the first directory argument set it for the arguments which followed). *)
+Fixpoint expand_from (chk : bool) (acc : list (list N)) (args : list arg) : list (list N) :=
+  match args with
+  | [] => acc
+  | AFile p :: t => expand_from chk (if negb chk || accepted p then oadd acc p else acc) t
+  | ADir fs :: t => expand_from chk (fold_left oadd_if fs acc) t
+  end.
+Definition expand (args : list arg) : list (list N) := expand_from false [] args.
+
+(* correspondence: the arguments (directories listed by the test generator), the list the real function returns *)
+Record expcase := mke { e_args : list arg; e_out : list (list N) }.
+Fixpoint lists_eqb (a b : list (list N)) : bool :=
+  match a, b with
+  | [], [] => true
+  | x :: a', y :: b' => list_eqb x y && lists_eqb a' b'
+  | _, _ => false
+  end.
+Fixpoint exp_mismatches_from (i : nat) (l : list expcase) : list nat :=
+  match l with
+  | [] => []
+  | c :: t => if lists_eqb (expand (e_args c)) (e_out c) then exp_mismatches_from (S i) t else i :: exp_mismatches_from (S i) t
+  end.
+Definition exp_mismatches (l : list expcase) : list nat := exp_mismatches_from 0 l.
+
